@@ -17,7 +17,7 @@ sys.path.insert(0, os.path.dirname(os.path.dirname(os.path.abspath(__file__))))
 from lib import vlib  # noqa: E402
 from lib import e2e_env  # noqa: E402
 
-HARNESS_CRATES = ["typealg", "sessions", "stores", "bodyx", "cfgload", "domain", "shutdown"]  # bpschema is built (with its generated sources) by the C19 warm-up step
+HARNESS_CRATES = ["typealg", "sessions", "stores", "bodyx", "cfgload", "domain", "shutdown", "persist"]  # bpschema is built (with its generated sources) by the C19 warm-up step
 
 
 def step(name, f):
